@@ -131,7 +131,7 @@ theorem mape_iff : meanAbsolutePercentageError eps yt yp hw mo sym = .ok out ↔
 
 theorem mdape_iff : medianAbsolutePercentageError eps yt yp hw mo sym = .ok out ↔
     checkRegTargets yt yp mo = .ok () ∧ checkHw (nrows yt) hw = .ok () ∧
-    finish 1 mo (List.zipWith (mdapeCol eps hw sym) yt yp) = .ok out := by
+    finish 1 mo (List.zipWith (fun t p => medianW hw ((pctCol eps sym t p).map absR)) yt yp) = .ok out := by
   unfold medianAbsolutePercentageError; simp only [bindU_ok]
 
 theorem mspe_iff : meanSquaredPercentageError eps yt yp hw mo sqrt sym = .ok out ↔
@@ -159,13 +159,17 @@ theorem mdrae_iff : medianRelativeAbsoluteError eps yt yp yb hw mo = .ok out ↔
 
 theorem gmrae_iff : geometricMeanRelativeAbsoluteError eps yt yp yb hw mo = .ok out ↔
     checkRegTargets yt yp mo = .ok () ∧ checkRegTargets yt yb mo = .ok () ∧ checkHw (nrows yt) hw = .ok () ∧
-    ∃ kq, gmCols eps absR yt yp yb hw = .ok kq ∧ finish kq.1 mo kq.2 = .ok out := by
-  unfold geometricMeanRelativeAbsoluteError; simp only [bindU_ok]; simp only [bind_ok]
+    checkNonneg hw = .ok () ∧ checkSum hw = .ok () ∧
+    finish (gmDeg (nrows yt) hw) mo
+      (relCols eps (fun re => gmFactor hw (re.map (fun e => floorEps eps (absR e)))) yt yp yb) = .ok out := by
+  unfold geometricMeanRelativeAbsoluteError; simp only [bindU_ok]
 
 theorem gmrse_iff : geometricMeanRelativeSquaredError eps yt yp yb hw mo sqrt = .ok out ↔
     checkRegTargets yt yp mo = .ok () ∧ checkRegTargets yt yb mo = .ok () ∧ checkHw (nrows yt) hw = .ok () ∧
-    ∃ kq, gmCols eps sqr yt yp yb hw = .ok kq ∧ finish (rootDeg sqrt kq.1) mo kq.2 = .ok out := by
-  unfold geometricMeanRelativeSquaredError; simp only [bindU_ok]; simp only [bind_ok]
+    checkNonneg hw = .ok () ∧ checkSum hw = .ok () ∧
+    finish (rootDeg sqrt (gmDeg (nrows yt) hw)) mo
+      (relCols eps (fun re => gmFactor hw (re.map (fun e => floorEps eps (sqr e)))) yt yp yb) = .ok out := by
+  unfold geometricMeanRelativeSquaredError; simp only [bindU_ok]
 
 theorem masym_iff {thr : Rat} {l r : EF} : meanAsymmetricError yt yp hw mo thr (some l) (some r) = .ok out ↔
     checkRegTargets yt yp mo = .ok () ∧ checkHw (nrows yt) hw = .ok () ∧ checkSum hw = .ok () ∧
@@ -181,9 +185,6 @@ theorem masym_bad {thr : Rat} {l r : Option EF} (h : l = none ∨ r = none) :
   rcases h with rfl | rfl
   · simp at hh
   · cases l <;> simp at hh
-
-theorem gmCols_none {g : Rat → Rat} : gmCols eps g yt yp yb none =
-    .ok (nrows yt, relCols eps (fun re => prod (re.map (fun e => floorEps eps (g e)))) yt yp yb) := rfl
 
 def ixOk : Option (Int × Int) → Prop
   | none => True
